@@ -24,6 +24,7 @@ OWN = {
     "C06": ("C06_",),
     "C04": ("C04_",),
     "C03": ("C03_",),
+    "C18": ("C18_",),
     "C19": ("C19_",),
 }
 
@@ -79,10 +80,44 @@ SID_MAPS = {
 }
 
 
+LIMITER_OPTIONS = {"ip": {"REQ": "2/s,3/min", "EVENT": "1/s"}, "global": {"CLOSE": "2/s"}, "10.0.0.2": {"EVENT": "2/s"}}
+LIMITER_RULES = {"ip": {"REQ": [[60, 3], [1, 2]], "EVENT": [[1, 1]]}, "global": {"CLOSE": [[1, 2]]}, "10.0.0.2": {"EVENT": [[1, 2]]}}
+LIMITER_ADDRS = ["10.0.0.1", "10.0.0.2"]
+LIMITER_CMDS = ["REQ", "EVENT", "CLOSE"]
+
+
+def _make_limiter():
+    from nostr_relay.rate_limiter import RateLimiter
+
+    rl = RateLimiter(LIMITER_OPTIONS)
+    rl.log = _Quiet()
+    calls = [0]
+
+    def clock():
+        return calls[0] // 3          # about three messages per second of limiter time
+
+    orig = rl.is_limited
+
+    def counted(addr, message):
+        calls[0] += 1
+        return orig(addr, message)
+
+    rl.is_limited = counted
+    rl._starttime = 0
+    rl._timestamp = clock
+    return rl
+
+
+class _Quiet:
+    def __getattr__(self, name):
+        return lambda *a, **k: None
+
+
 def _worker(payload):
     from .. import relaydrv, storedrv
 
-    key, backend, scheds, sid_map_name = payload
+    key, backend, scheds, sid_map_name = payload[:4]
+    with_limiter = len(payload) > 4 and payload[4]
     uni = pool._CTX[key]
     sid_map = SID_MAPS[sid_map_name]
 
@@ -92,7 +127,8 @@ def _worker(payload):
             with C.Scratch() as d:
                 st = await storedrv.open_storage(backend, d, sync_writer=False, **({"num_concurrent_adds": 1} if backend == "sql" else {}))
                 try:
-                    log, info, errs = await relaydrv.run_connections(st, uni, NCONNS, sched, sid_map)
+                    log, info, errs = await relaydrv.run_connections(st, uni, NCONNS, sched, sid_map,
+                                                                     rate_limiter=_make_limiter() if with_limiter else None)
                 finally:
                     await storedrv.close_storage(st)
                 out.append((relaytrace.log_to_trace(log, info, NCONNS), log, info, errs))
@@ -120,7 +156,7 @@ def run(prop, tier, seed, backends=BACKENDS, only_universe=None):
     distinct = set()
     samples = []
     other = {}
-    design_unused = None
+    all_items = {}
     for vn, (uni, sid_map_name) in enumerate(variants):
       scheds = {}
       for backend in backends:
@@ -133,15 +169,16 @@ def run(prop, tier, seed, backends=BACKENDS, only_universe=None):
       for backend in backends:
         sc = scheds[backend]
         for b in range(0, len(sc), 10):
-            payloads.append(("uni", backend, sc[b:b + 10], sid_map_name))
+            payloads.append(("uni", backend, sc[b:b + 10], sid_map_name, prop == "C18"))
       results = pool.map_in_workers("harness.checks.relayfam", "_worker", payloads, config={"subscription_limit": SUBLIMIT},
                                     shared={"uni": uni})
       per_backend = {b: [] for b in backends}
-      for (key, backend, sc, _), res in zip(payloads, results):
+      for (key, backend, sc, _, _), res in zip(payloads, results):
         for sched, (tr, log, info, errs) in zip(sc, res):
             per_backend[backend].append((sched, tr, log, info, errs))
       for backend in backends:
         items = per_backend[backend]
+        all_items.setdefault(backend, []).extend(items)
         verdicts, vstats = relaytrace.validate_relay_traces(uni, NCONNS, SIDS, SUBLIMIT, backend, [it[1] for it in items])
         out.add_model(vstats)
         for k, (sched, tr, log, info, errs) in enumerate(items):
@@ -164,6 +201,27 @@ def run(prop, tier, seed, backends=BACKENDS, only_universe=None):
                 attrs = {"backend": backend, "formula": first[0], "line": ln, "schedule": sched, "trace": tr}
                 what = "%s on %s: %s at line %d %s; schedule=%s" % (prop, backend, first[0], first[1], ln, sched)
                 out.violation(what, attrs, lambda p, sched=sched, tr=tr, log=log, bad=bad, backend=backend: _dump(p, prop, backend, sched, tr, log, bad))
+    if prop == "C18":
+        from .. import tracedata
+
+        rl_traces = []
+        for backend in backends:
+            for (sched, tr, log, info, errs) in all_items.get(backend, []):
+                calls = [ln for ln in log if ln["a"] == "LimiterCalls"]
+                if calls:
+                    rl_traces.append([{"a": "Arrive", "t": int(t), "addr": addr, "cmd": cmd, "lim": lim,
+                                       "dq": {k: {c: dq.get(k, {}).get(c, []) for c in LIMITER_CMDS} for k in ["global"] + LIMITER_ADDRS}}
+                                      for (addr, cmd, lim, t, dq) in calls[0]["calls"] if cmd in LIMITER_CMDS and addr in LIMITER_ADDRS])
+        defs = {"TD_Addrs": set(LIMITER_ADDRS), "TD_Cmds": set(LIMITER_CMDS), "TD_Rules": LIMITER_RULES}
+        v2, st2 = tracedata.validate("RateLimiter_Trace", defs, rl_traces, batch=100)
+        out.add_model(st2)
+        for k, tr in enumerate(rl_traces):
+            out.cov["traces_validated_against_impl"] += 1
+            for b in v2[k]:
+                if b[0].startswith("C18_") or b[0] == "Conform":
+                    what = "C18 in the handler loop: %s at limiter call %d %s" % (b[0], b[1], {x: y for x, y in tr[b[1] - 1].items() if x != "dq"})
+                    out.violation(what, {"formula": b[0], "line": tr[b[1] - 1], "rules": LIMITER_RULES, "trace": tr, "lineno": b[1]}, None)
+                    break
     design.join(out)
     out.cov["distinct_nontrivial"] = len(distinct)
     out.cov["rule"] = ("behaviours of Relay.tla produced by TLC -simulate (depth %d, %d per backend, seed-dependent), projected on "
@@ -181,6 +239,7 @@ _RULE = {
     "C06": "an EVENT was answered",
     "C04": "at least three frames were sent",
     "C03": "a forged event was submitted over the websocket path",
+    "C18": "the limiter refused a message of a connection",
     "C19": "a connection ended",
 }
 
@@ -189,6 +248,8 @@ def _conform_owner(tr, lineno):
     """which property a step that no Relay action explains belongs to, by the kind of step"""
     ln = tr[lineno - 1] if 0 < lineno <= len(tr) else {}
     a = ln.get("a")
+    if a == "Limited" or any(x.get("a") == "Limited" for x in tr[max(0, lineno - 3):lineno]):
+        return "C18"
     if a in ("FanOut", "Notify"):
         return "C05"
     if a in ("Submit", "Accept") or (a == "Send" and ln["f"]["t"] == "OK"):
@@ -208,6 +269,8 @@ def _nontrivial(prop, tr):
         return sum(1 for ln in tr if ln["a"] == "Send") >= 3
     if prop == "C03":
         return any(ln["a"] == "Submit" and ln["e"] in ("fx", "fs") for ln in tr)
+    if prop == "C18":
+        return any(ln["a"] == "Limited" for ln in tr)
     return any(ln["a"] == "Drop" for ln in tr)
 
 
